@@ -17,7 +17,7 @@ CHECKS = {
         "rule": ("cases = (PipeN arity 1-24 with one generated call site per arity, operator slots filled with catalogue rows each followed by a counting tap, script and ending, 1-3 sequential "
                  "or 2-4 concurrent subscriptions, licence on/off); stand-alone counters x every word of length <= 3 x subscriptions x licence. Non-trivial = arity >= 2, or >= 2 "
                  "subscriptions, or an ending other than completion; distinct by descriptor hash."),
-        "quick": {"rapid": 200, "timeout": 300, "shards": 4},
+        "quick": {"rapid": 1000, "timeout": 300, "shards": 4},
         "thorough": {"rapid": 30000, "timeout": 3000, "shards": 16},
         "assumptions": COMMON_ASSUMPTIONS + ["the licence check is switched by the verif-tagged setter VerifSetLicenseBypass (the real check needs a vendor-signed key)",
                         "metrics are read back through prometheus.Registry.Gather on the collector returned by PipeN"],
@@ -54,7 +54,7 @@ CHECKS = {
         "rule": ("cases = (limiter {native, ulule with the in-memory store}, quota 1-3, window 5-40 ms (ulule: 3-10 ms, or one hour for the exact model), 1-3 keys, arrival timeline "
                  "{burst, steady, sparse, mixed}, ending, synchronous or asynchronous source). Non-trivial = some key exceeds its quota inside one window, i.e. the limiter has to "
                  "drop; distinct by descriptor hash."),
-        "quick": {"rapid": 400, "timeout": 300, "shards": 4},
+        "quick": {"rapid": 1200, "timeout": 300, "shards": 4},
         "thorough": {"rapid": 6000, "timeout": 3000, "shards": 16},
         "assumptions": COMMON_ASSUMPTIONS + ["native limiter runs in virtual time (synctest); the ulule limiter reads the wall clock: with short periods only the alignment-independent bound is asserted, with a one-hour period the exact model"],
         "technique": "property-based testing of generated key distributions and timelines with an alignment-independent quota bound, per-key subsequence check and terminal propagation",
@@ -70,7 +70,7 @@ CHECKS = {
                  "reads / sends, synchronous or asynchronous source, producer closes or abandons the channel) enumerated; (ToSlice, ToMap, Collect, Materialize|Dematerialize) x every word "
                  "up to the stated length (illegal suffixes included) plus rapid scripts. Non-trivial = a cut, a stalled or stopping consumer, capacity below the number of values, or an "
                  "error ending; distinct by descriptor hash."),
-        "quick": {"rapid": 300, "timeout": 300, "shards": 4},
+        "quick": {"rapid": 1500, "timeout": 300, "shards": 4},
         "thorough": {"rapid": 60000, "timeout": 3000, "shards": 16},
         "assumptions": COMMON_ASSUMPTIONS + ["testing/synctest quiescence decides 'the reader is not blocked', 'the producer has returned' and 'no goroutine is left'"],
         "technique": "property-based testing: enumerated consumer/producer behaviours in synctest bubbles with a materialised-sequence oracle; round-trip and model oracles for the synchronous bridges",
@@ -87,7 +87,7 @@ CHECKS = {
                  "just above the configured duration, arbitrary), ending, optional unsubscription or context cancellation at a generated instant); real time (ThrottleTime, TimeInterval, "
                  "Timestamp, Timeout under a slow observer): cases = (operator, duration, gaps, observer delays). Non-trivial = a cut strictly inside the timeline, or >= 2 source values "
                  "with a gap within 1 ms of the configured duration, or a periodic source; distinct by descriptor hash."),
-        "quick": {"rapid": 300, "timeout": 300, "shards": 4},
+        "quick": {"rapid": 1000, "timeout": 300, "shards": 4},
         "thorough": {"rapid": 20000, "timeout": 3000, "shards": 16},
         "assumptions": COMMON_ASSUMPTIONS + ["virtual-time stamps come from testing/synctest's fake clock: comparisons are exact and load-independent; the real-time part asserts one-sided bounds only"],
         "technique": "property-based testing of generated timelines in virtual time (testing/synctest) with lower-bound / order / count oracles; one-sided real-time bounds for the operators bound to the process clock",
@@ -170,7 +170,7 @@ CHECKS = {
                  "Concat/ConcatWith/ConcatAll with 0..3 further sources}, sequence of attempt outcomes (each a short script ending in completion or error), synchronous or "
                  "asynchronous attempts, optional cancellation of the subscription context during attempt j). Non-trivial = at least two attempts with different outcomes, or "
                  "several sources, or a cancellation; distinct by descriptor hash."),
-        "quick": {"rapid": 400, "timeout": 300, "shards": 4},
+        "quick": {"rapid": 2000, "timeout": 300, "shards": 4},
         "thorough": {"rapid": 60000, "timeout": 3000, "shards": 16},
         "assumptions": COMMON_ASSUMPTIONS + ["unbounded re-subscription is cut out-of-band: past 12 subscriptions the instrumented source completes and raises a flag"],
         "technique": "property-based testing: enumerated outcome sequences against a reference model with subscription counting and a sequencing monitor on the instrumented sources",
@@ -187,7 +187,7 @@ CHECKS = {
                  "ResetOnDisconnect}, operation sequence over {Subscribe i, Unsubscribe i, SourceNext, SourceError, SourceComplete, Connect, Disconnect}, manual or cold synchronous source); "
                  "non-trivial = a 1->0 transition, a terminal or a disconnect followed by a new subscriber/connect. Concurrent: cases = (config, number of simultaneous first subscribers, "
                  "values, connector delay) repeated; all non-trivial. Distinct by descriptor hash."),
-        "quick": {"rapid": 100, "timeout": 300, "shards": 4},
+        "quick": {"rapid": 300, "timeout": 300, "shards": 4},
         "thorough": {"rapid": 2000, "timeout": 3000, "shards": 16},
         "assumptions": COMMON_ASSUMPTIONS,
         "technique": "model-based property testing: exhaustive + rapid event sequences against a statement-level model of executions; concurrent invariant checks under repetition",
@@ -205,7 +205,7 @@ CHECKS = {
                  "stated length (subscriber ids introduced in order, at most two operations after a terminal) plus rapid sequences up to length 40; non-trivial = the sequence has a "
                  "terminal or an Unsubscribe followed by a later Subscribe. Concurrent: cases = (kind/size, sequential prefix, 2-4 threads of operations), each run several times; "
                  "non-trivial = at least two threads have operations. Distinct by descriptor hash."),
-        "quick": {"rapid": 250, "timeout": 300, "shards": 4},
+        "quick": {"rapid": 500, "timeout": 300, "shards": 4},
         "thorough": {"rapid": 4000, "timeout": 3000, "shards": 16},
         "assumptions": COMMON_ASSUMPTIONS + ["porcupine v1.3.0 decides linearizability of each recorded history (5 s budget per history; budget exhaustion is counted, not judged)"],
         "technique": "model-based property testing: exhaustive + rapid operation sequences against a sequential reference model; concurrent histories checked for linearizability with porcupine",
@@ -221,7 +221,7 @@ CHECKS = {
         "rule": ("cases = (row or chain, params, script, cut position, way of unsubscribing {harness goroutine, inside the observer's Next, 1-4 concurrent goroutines}); "
                  "(constructor, script, sync/async source, number of concurrent Wait callers, slow terminal callback); (chain, terminating script) for Collect. "
                  "Non-trivial = the cut is strictly inside the script, or >= 2 concurrent callers, or an asynchronous source; distinct by descriptor hash."),
-        "quick": {"rapid": 300, "timeout": 300, "shards": 4},
+        "quick": {"rapid": 1500, "timeout": 300, "shards": 4},
         "thorough": {"rapid": 60000, "timeout": 3000, "shards": 16},
         "assumptions": COMMON_ASSUMPTIONS + ["'never returns' verdicts use a 10 s real-time bound on operations that are synchronous and finite by construction; 'returns early' verdicts are one-sided"],
         "technique": "property-based testing: history invariant over logical stamps (no callback begins after Unsubscribe returned), Wait/terminal ordering, Collect vs observer differential",
@@ -239,7 +239,7 @@ CHECKS = {
                  "repetitions each; (b) every catalogue row and random chains over a manually driven source, Unsubscribe at every cut position from the harness, from "
                  "inside Next and from other goroutines; rows that wait inside Subscribe over finite cold sources. Non-trivial = at least one teardown and an ending that "
                  "is a cut or a race (not plain run-to-completion); distinct by descriptor hash."),
-        "quick": {"rapid": 300, "timeout": 300, "shards": 4},
+        "quick": {"rapid": 1500, "timeout": 300, "shards": 4},
         "thorough": {"rapid": 4000, "timeout": 3000, "shards": 16, "fuzz": {"seconds": 30, "targets": ["FuzzC03_ReleaseChainsRandom"]}},
         "assumptions": COMMON_ASSUMPTIONS,
         "technique": "stateful property-based testing (rapid state machine) + race repetition + enumerated cut positions with instrumented sources",
@@ -256,7 +256,7 @@ CHECKS = {
                  "checked after every call; non-trivial = script with >= 2 values. Hand-off clause: cases = (ObserveOn | SubscribeOn | ToChannel, capacity, input "
                  "length, ending, per-item consumer delays); non-trivial = length > capacity and a consumer that stalls at least once. Distinct by descriptor hash. "
                  "'bound-reached' in classes counts the hand-off cases where the producer actually got capacity+1 ahead (the bound is exercised, not vacuous)."),
-        "quick": {"rapid": 200, "timeout": 300, "shards": 4},
+        "quick": {"rapid": 1000, "timeout": 300, "shards": 4},
         "thorough": {"rapid": 12000, "timeout": 3000, "shards": 16, "fuzz": {"seconds": 30, "targets": ["FuzzC08_SyncChainsRandom"]}},
         "assumptions": COMMON_ASSUMPTIONS + ["hand-off bounds are upper bounds sampled in the producer and the consumer; machine load can only make them easier to satisfy"],
         "technique": "property-based testing: step-wise differential against an incremental reference model (count, goroutine id, stamp window) + generated consumer-stall patterns with an upper-bound invariant",
@@ -275,7 +275,7 @@ CHECKS = {
                  "- operator callbacks, the source's subscribe function, the final observer's Next/Error/Complete - at a chosen invocation index, a panic(error), "
                  "panic(string), panic(non-error value) or a returned error. Invocation indices come from a fault-free dry run, so every injected fault is reachable. "
                  "Non-trivial = invocation index >= 1, or the position is the subscribe function or an observer callback, or a chain/pair; distinct by descriptor hash."),
-        "quick": {"rapid": 400, "timeout": 300, "shards": 4},
+        "quick": {"rapid": 2000, "timeout": 300, "shards": 4},
         "thorough": {"rapid": 20000, "timeout": 3000, "shards": 16, "fuzz": {"seconds": 30, "targets": ["FuzzC07_FaultsInChainsRandom"]}},
         "assumptions": COMMON_ASSUMPTIONS,
         "technique": "fault injection by enumeration (position x invocation index x kind) + rapid fault pairs in chains, judged by a fault-aware reference model",
@@ -292,7 +292,7 @@ CHECKS = {
         "rule": ("cases = (row or chain, params, variant, script 1..n with ending, upstream marker operator {none, ContextWithValue, ContextMap}, dynamic kind of the "
                  "subscription context {WithValue, WithCancel, WithDeadline, custom type}). Non-trivial = the case exercises a terminal path (error/complete ending) "
                  "or a row that stores items (SkipLast, TakeLast, Min/Max, Reduce) - not just pass-through Next; distinct by descriptor hash."),
-        "quick": {"rapid": 400, "timeout": 300, "shards": 4},
+        "quick": {"rapid": 2000, "timeout": 300, "shards": 4},
         "thorough": {"rapid": 30000, "timeout": 3000, "shards": 16, "fuzz": {"seconds": 30, "targets": ["FuzzC09_ChainsRandom"]}},
         "assumptions": COMMON_ASSUMPTIONS,
         "technique": "property-based testing: marker propagation invariants over enumerated rows and rapid chains (subscription marker, upstream marker, per-item provenance, non-nil)",
@@ -311,7 +311,7 @@ CHECKS = {
                  "driven source; 2-4 concurrent subscriptions; one operator value applied to 2-3 sources and subscribed in every listed order. Non-trivial = the "
                  "row/chain keeps per-subscription state (index, accumulator, buffer, seen-set, counter) or re-subscribes, or an operator value is applied to "
                  ">= 2 sources; distinct by descriptor hash."),
-        "quick": {"rapid": 400, "timeout": 300, "shards": 4},
+        "quick": {"rapid": 2000, "timeout": 300, "shards": 4},
         "thorough": {"rapid": 20000, "timeout": 3000, "shards": 16, "fuzz": {"seconds": 30, "targets": ["FuzzC12_Random"]}},
         "assumptions": COMMON_ASSUMPTIONS,
         "technique": "property-based testing: differential (n-th / concurrent / co-applied subscription vs first subscription of a fresh pipeline) + model-derived source-subscription counts",
@@ -328,7 +328,7 @@ CHECKS = {
                  "observer style, subscriber placement) enumerated exhaustively up to the stated word length, plus rapid-generated concurrent cases "
                  "(2-4 goroutines each playing a word into one safe observable or subject, 5 repetitions each, slow Next callback). Non-trivial = the word "
                  "has at least one notification after its first terminal, or >= 2 producers with a terminal among their words; distinct by descriptor hash."),
-        "quick": {"rapid": 300, "timeout": 300, "shards": 4},
+        "quick": {"rapid": 1500, "timeout": 300, "shards": 4},
         "thorough": {"rapid": 20000, "timeout": 3000, "shards": 16},
         "assumptions": COMMON_ASSUMPTIONS,
         "technique": "property-based testing: exhaustive word enumeration + rapid-generated concurrent producers, judged by a grammar automaton and drop-hook accounting",
@@ -346,7 +346,7 @@ CHECKS = {
                  "inside the small scope stated in 'enumerated_scope', then drawn by rapid (longer scripts, wider values, random chains, "
                  "Pipe/PipeN/PipeOpN arities 1..25). A case is non-trivial when the input has >= 1 value, or it is a chain of >= 2 stages; "
                  "distinct = distinct (row/chain, variant, params, script) descriptor, counted by hash set."),
-        "quick": {"rapid": 300, "timeout": 300, "shards": 4},
+        "quick": {"rapid": 1500, "timeout": 300, "shards": 4},
         "thorough": {"rapid": 12000, "timeout": 3000, "shards": 16, "fuzz": {"seconds": 30, "targets": ["FuzzC04_ChainsRandom", "FuzzC04_LongScripts", "FuzzC04_MathTyped"]}},
         "assumptions": COMMON_ASSUMPTIONS,
         "technique": "property-based testing: bounded-exhaustive enumeration + rapid generation against a reference model; variant and composition differentials",
